@@ -551,6 +551,31 @@ def readAnnot (origIds : Bool) (bs : Bytes) : Except Err Annot :=
                       | .ok labels => .ok ⟨labels, ctab, names⟩
                       | .error e => .error e
 
+/-- `ctab[:, :3] = rgb` on a table as `read_annot` returned it: the colours change, the transparency and —
+    what matters — the annotation-value column keep their OLD (now stale) values; rows beyond the shorter
+    list are left alone -/
+def recolour : List Row → List (Int × Int × Int) → List Row
+  | c :: cs, p :: ps => { c with r := p.1, g := p.2.1, b := p.2.2 } :: recolour cs ps
+  | cs, _ => cs
+
+/-- the two-step history `write_annot; read_annot; ctab[:, :3] = rgb; write_annot(fill_ctab=fill2); read_annot`
+    (the second write gets the 5-column table and the `bytes` names exactly as the first read returned them);
+    result: first read, second file, second read -/
+def annotChain (labels : List Int) (ctab : List Row) (has5 : Bool) (names : List Bytes) (fill : Bool)
+    (rgb : List (Int × Int × Int)) (fill2 : Bool) : Except Err (Annot × Bytes × Annot) :=
+  match writeAnnot labels ctab has5 names fill with
+  | .error e => .error e
+  | .ok f1 =>
+    match readAnnot false f1 with
+    | .error e => .error e
+    | .ok a1 =>
+      match writeAnnot a1.labels (recolour a1.ctab rgb) true a1.names fill2 with
+      | .error e => .error e
+      | .ok f2 =>
+        match readAnnot false f2 with
+        | .error e => .error e
+        | .ok a2 => .ok (a1, f2, a2)
+
 /-! ## MGH header: shape, zooms, footer offset -/
 
 /-- the `dims` field (always four entries) -/
@@ -656,8 +681,11 @@ def writeMgh (h : MghHdr) (ras : Bytes) (bpv : Nat) (data : List Nat) : Bytes :=
 /-- right zero-pad / truncate to n bytes (`MGHHeader.__init__`) -/
 def padTo (n : Nat) (bs : Bytes) : Bytes := bs.take n ++ zeros (n - bs.length)
 
-/-- `MGHHeader.from_fileobj` + `data_from_fileobj`; returns header and data elements (Fortran order) -/
-def readMgh (bs : Bytes) : Except Err (MghHdr × List Nat) :=
+/-- `MGHHeader.from_fileobj` + `MGHHeader.__init__` + `data_from_fileobj`; returns the header fields, the 48
+    bytes of `Mdc`/`Pxyz_c` the loaded header holds (bytes 42..90 of the file, or — when `goodRASFlag` is 0 —
+    what `_set_affine_default` puts there: `defRasBytes`, regenerated from the source) and the data elements
+    (Fortran order) -/
+def readMgh (bs : Bytes) : Except Err (MghHdr × Bytes × List Nat) :=
   if bs.length < hdrItemsize then .error .value else
   match rdU32 bs with
   | .error e => .error e
@@ -690,10 +718,11 @@ def readMgh (bs : Bytes) : Except Err (MghHdr × List Nat) :=
             | .error e => .error e
             | .ok (ftr, _) =>
               if version ≠ 1 then .error .hdrData else
-              let delta' := if good = 0 then [1065353216, 1065353216, 1065353216] else delta
+              let delta' := if good = 0 then defDeltaNoRas else delta
+              let ras' := if good = 0 then defRasBytes else (bs.drop 42).take 48
               match rdWs bpv d.prod (bs.drop dataOffset) with
               | .error e => .error e
-              | .ok data => .ok (⟨d, code, delta', ftr⟩, data)
+              | .ok data => .ok (⟨d, code, delta', ftr⟩, ras', data)
 
 /-- `hdr[field] = value` for the footer fields, index 0..4 -/
 def setFtr (h : MghHdr) (sets : List (Nat × Nat)) : MghHdr :=
@@ -707,12 +736,31 @@ structure MghOut where
   zooms : List Nat       -- loaded.header.get_zooms()
   ftr : List Nat
   data : List Nat
+  ras : Bytes            -- loaded.header: bytes of Mdc / Pxyz_c
   deriving DecidableEq, Repr
+
+/-- the save/load part of `mghSaveLoad`, from the header `h1` as the caller left it: footer assignments,
+    `update_header` (delta from the affine), `to_file_map`, `load` -/
+def mghSaveLoadFrom (shape3 : List Nat) (code : Nat) (h1 : MghHdr) (data : List Nat) (affDelta : List Nat)
+    (ras : Bytes) (ftrSets : List (Nat × Nat)) : Except Err MghOut :=
+  let h2 := setFtr h1 ftrSets
+  let h3 := { h2 with delta := affDelta }
+  if getDataShape h3.dims ≠ shape3 then .error .hdrData else
+  match bytesPerVox code with
+  | none => .error .key
+  | some bpv =>
+    let file := writeMgh h3 ras bpv data
+    match readMgh file with
+    | .error e => .error e
+    | .ok (h', ras', data') =>
+      .ok ⟨getZooms h1, file, getDataShape h'.dims, h'.code, getZooms h', h'.ftr, data', ras'⟩
 
 /-- `img = MGHImage(data, affine)`; optional `img.header.set_zooms(zs)`; footer assignments;
     `save`; `load`.  `affDelta` = float32(voxel_sizes(affine)) (external); on save `update_header`
     re-derives `delta` from the affine unless the header affine is `allclose` to it, so the saved delta
-    is `affDelta` (generators keep `zs[:3]` either equal to it or far from it). -/
+    is `affDelta` (generators keep `zs[:3]` either equal to it or far from it).  `ras` = the 48 bytes
+    `_affine2header` stores in `Mdc`/`Pxyz_c` (float arithmetic: external, computed by the harness
+    independently of nibabel). -/
 def mghSaveLoad (shape : List Nat) (dt : String) (data : List Nat) (affDelta : List Nat) (ras : Bytes)
     (setZ : Option (List Nat)) (ftrSets : List (Nat × Nat)) : Except Err MghOut :=
   let shape3 := if shape.length < 3 then padShape3 shape else shape
@@ -723,19 +771,11 @@ def mghSaveLoad (shape : List Nat) (dt : String) (data : List Nat) (affDelta : L
     | .error e => .error e
     | .ok dims =>
       let h0 : MghHdr := ⟨dims, code, affDelta, [0, 0, 0, 0, 0]⟩
-      match (match setZ with | none => Except.ok h0 | some zs => setZooms h0 zs) with
-      | .error e => .error e
-      | .ok h1 =>
-        let h2 := setFtr h1 ftrSets
-        let h3 := { h2 with delta := affDelta }
-        if getDataShape h3.dims ≠ shape3 then .error .hdrData else
-        match bytesPerVox code with
-        | none => .error .key
-        | some bpv =>
-          let file := writeMgh h3 ras bpv data
-          match readMgh file with
-          | .error e => .error e
-          | .ok (h', data') =>
-            .ok ⟨getZooms h1, file, getDataShape h'.dims, h'.code, getZooms h', h'.ftr, data'⟩
+      match setZ with
+      | none => mghSaveLoadFrom shape3 code h0 data affDelta ras ftrSets
+      | some zs =>
+        match setZooms h0 zs with
+        | .error e => .error e
+        | .ok h1 => mghSaveLoadFrom shape3 code h1 data affDelta ras ftrSets
 
 end Nb.C19
